@@ -383,3 +383,58 @@ class Parse(Contract):
 
     def covers(self, cx, ov, info):
         return [("parses", lambda k, p, s: k == "return"), ("rejects", lambda k, p, s: k == "raise")]
+
+
+@register
+class CompileStr(Contract):
+    """compile_str(text): 'Every string generated by the documented grammar ... denotes exactly the observation pattern given by
+    the documented semantics ... equivalent spellings (extra brackets, whitespace) yield equal patterns': the graphs of a text are
+    ALWAYS compile_expr(parse(text)) -- the text goes through the parser (whose contract handles whitespace and rejects every
+    other string with ValueError); there is no second route from text to graphs."""
+    path = PATH
+    qualname = "compile_str"
+    properties = ("C15",)
+    assumptions = ("A-PY", "parse / compile_expr through their contracts (here: uninterpreted functions that may raise)")
+
+    def configure(self, cx, I, ov):
+        lg = lambda st, rec: st.gset("log", st.ghost.get("log", ()) + (rec,))
+        self.parsed = z3.Function("parse", Val, Val)
+        self.compiled = z3.Function("compile_expr", Val, Val)
+
+        def mk(name, fn):
+            def apply(I2, a, kw, st, k):
+                x = as_val(I2.cx, a[0], st)
+                st2 = lg(st, (name, x))
+                e = I2.cx.fresh("exc", Exc)
+                fails = I2.cx.fresh(name + "_raises", z3.BoolSort())
+                return I2.cx.branch(st2, fails, lambda s: [("raise", VExc(sym=e, origin=(name,)), s.assume(*I2.cx.exc_axioms(e)))], lambda s: k(VElem(fn(x)), s))
+            return VFunc("opaque", name=name, apply=apply)
+        cx.module_globals["parse"] = mk("parse", self.parsed)
+        cx.module_globals["compile_expr"] = mk("compile_expr", self.compiled)
+        compile_fn = cx.module_globals["compile_expr"]
+        cx.module_globals["expression_module"] = VFunc("opaque-module", name="expression_module")
+
+        def getattr_hook(I2, obj, name, st, k):
+            if isinstance(obj, VFunc) and obj.kind == "opaque-module" and name == "compile_expr":
+                return k(compile_fn, st)
+            return None
+        cx.getattr_hook = getattr_hook
+
+    def setup(self, cx, I, ov):
+        self.text = z3.String("text")
+        return St(), [VStr(self.text)], {}, dict(witness={"text": self.text})
+
+    def post(self, cx, I, ov, info, kind, payload, st):
+        log = st.ghost.get("log", ())
+        t = cx.box_str(self.text)
+        parses = [r for r in log if r[0] == "parse"]
+        out = [("post:the-text-always-goes-through-the-parser-once" if kind == "return" else "raise:the-text-always-goes-through-the-parser-once",
+                z3.And(z3.BoolVal(len(parses) == 1), parses[0][1] == t if parses else z3.BoolVal(False)))]
+        if kind == "raise":
+            out.append(("raise:only-the-parser-or-the-compiler-raises", z3.BoolVal(bool(payload.origin) and payload.origin[0] in ("parse", "compile_expr"))))
+            return out
+        out.append(("post:the-graphs-are-compile_expr(parse(text))", as_val(cx, payload, st) == self.compiled(self.parsed(t))))
+        return out
+
+    def covers(self, cx, ov, info):
+        return [("compiles", lambda k, p, s: k == "return"), ("rejects", lambda k, p, s: k == "raise")]
